@@ -79,6 +79,7 @@ func (w *WatcherHub) DeleteWatcher(sub chan []*proto.Event, lock bool) {
 // Stream push events to watchers.
 func (w *WatcherHub) Stream(input chan []*proto.Event) {
 	for item := range input {
+		var slowSubs []chan []*proto.Event
 		w.RLock()
 		for sub := range w.subs {
 			select {
@@ -88,10 +89,15 @@ func (w *WatcherHub) Stream(input chan []*proto.Event) {
 				klog.InfoS("drop slow consumer", "chan", sub, "bufSize", watchBuffer)
 				w.metricCli.EmitCounter("drop.slow.watcher", 1)
 				verifhook.Point("hub.slowBranch", w, sub)
-				go w.DeleteWatcher(sub, true)
+				slowSubs = append(slowSubs, sub)
 			}
 		}
 		w.RUnlock()
+		// close the dropped consumers before the next batch is fanned out: once a batch was not delivered,
+		// no later batch may reach that consumer
+		for _, sub := range slowSubs {
+			w.DeleteWatcher(sub, true)
+		}
 	}
 
 	w.Lock()
